@@ -312,6 +312,18 @@ func (st *State) zeroObject(ref Term, t types.Type) error {
 	if err := st.storeStruct(ref, t, z); err != nil {
 		return err
 	}
+	// ghost state attached to interface types (keyed by the dynamic reference)
+	// starts at zero for a fresh object as well
+	for _, k := range st.fe.P.ifaceGhostKeys() {
+		g := st.fe.P.Ghosts[k]
+		zg, err := zeroVal(g.Type)
+		if err != nil {
+			return err
+		}
+		if err := st.storeField(ref, g.Owner, g.Name, g.Type, zg); err != nil {
+			return err
+		}
+	}
 	// ghost fields start at their zero value too
 	owner := typeKey(t)
 	for _, k := range st.fe.P.ghostKeysOf(owner) {
@@ -325,6 +337,17 @@ func (st *State) zeroObject(ref Term, t types.Type) error {
 		}
 	}
 	return nil
+}
+
+func (p *Program) ifaceGhostKeys() []string {
+	var out []string
+	for k, g := range p.Ghosts {
+		if g.IsIface {
+			out = append(out, k)
+		}
+	}
+	sort.Strings(out)
+	return out
 }
 
 func (p *Program) ghostKeysOf(owner string) []string {
